@@ -31,16 +31,20 @@ AddrViol(e) == IF e.out.mapped # Covers(table, e.letter.page) THEN {"C13/address
 \* translation of frontend virtual addresses (SET_VRING_ADDR)
 XlatViol(e) ==
     LET r == e.letter.rid
+        \* the available / used ring may lie in another region than the descriptor table
+        ra == IF "rid_a" \in DOMAIN e.letter THEN e.letter.rid_a ELSE r
+        ru == IF "rid_u" \in DOMAIN e.letter THEN e.letter.rid_u ELSE r
         \* edge = "end": the descriptor table is placed at the first user address past region r, which no region contains
-        \* the user range of r is translatable iff some region of the table has that user range (pool regions 0 and 4
+        \* the user range of a region is translatable iff some region of the table has that user range (pool regions 0 and 4
         \* may share it: same guest range and size, another file)
-        inT == (\E r2 \in table : pool[r2 + 1].ua = pool[r + 1].ua /\ pool[r2 + 1].size = pool[r + 1].size)
-               /\ ~("edge" \in DOMAIN e.letter /\ e.letter.edge = "end")
-        ring == e.barriers[1].rings[e.q + 1] IN
+        In(x) == \E r2 \in table : pool[r2 + 1].ua = pool[x + 1].ua /\ pool[r2 + 1].size = pool[x + 1].size
+        inT == In(r) /\ In(ra) /\ In(ru) /\ ~("edge" \in DOMAIN e.letter /\ e.letter.edge = "end")
+        ring == e.barriers[1].rings[e.q + 1]
+        cross == IF ra # r \/ ru # r THEN "/rings-in-different-regions" ELSE "" IN
     IF (e.status = "ok") # inT THEN {"C13/translation/address-in-table=" \o Str(inT) \o "/accepted=" \o Str(e.status = "ok")
-                                           \o (IF "edge" \in DOMAIN e.letter THEN "/at-region-" \o e.letter.edge ELSE "")}
-    ELSE IF inT /\ (ring.desc # Sum4(pool[r + 1].gpa, e.letter.odesc) \/ ring.avail # Sum4(pool[r + 1].gpa, e.letter.oavail)
-                    \/ ring.used # Sum4(pool[r + 1].gpa, e.letter.oused)) THEN {"C13/translation/wrong-guest-address"}
+                                           \o (IF "edge" \in DOMAIN e.letter THEN "/at-region-" \o e.letter.edge ELSE "") \o cross}
+    ELSE IF inT /\ (ring.desc # Sum4(pool[r + 1].gpa, e.letter.odesc) \/ ring.avail # Sum4(pool[ra + 1].gpa, e.letter.oavail)
+                    \/ ring.used # Sum4(pool[ru + 1].gpa, e.letter.oused)) THEN {"C13/translation/wrong-guest-address" \o cross}
     ELSE {}
 
 TVInit == table = {} /\ pool = <<>> /\ upd = 0 /\ l = 1 /\ viol = {} /\ judged = 0 /\ cur = -1 /\ dead = FALSE
